@@ -27,7 +27,7 @@ WITNESSES = [
 ]
 
 
-def gen_cases(rng, tier):
+def _gen_cases(rng, tier):
 	cases = []
 	n = 2500 if tier == 'thorough' else 260
 	for i in range(n):
@@ -80,6 +80,21 @@ def gen_cases(rng, tier):
 		else:
 			s = stray + sers[0] + stray + b''.join(sers[1:]) + stray
 		cases.append({'k': 'frag', 'kind': kind, 's': s.hex(), 'cuts': [[], list(range(1, len(s)))] + streams.single_cuts(s, None if tier == 'thorough' else 150)})
+	# directed error paths (measured gaps of the random streams: see impl_statement_coverage in the evidence): the error must not depend on the cut
+	import gzip
+	gz = gzip.compress(b'hello world', mtime=0)
+	directed = [
+		('server', b'POST / HTTP/1.1\r\nHost: h\r\nTransfer-Encoding: chunked\r\n\r\n5\r\nhelloXX\r\n0\r\n\r\n'),
+		('server', b'POST / HTTP/1.1\r\nHost: h\r\nTransfer-Encoding: chunked\r\n\r\n-1\r\nhello\r\n0\r\n\r\n'),
+		('server', b'POST / HTTP/1.1\r\nHost: h\r\nTransfer-Encoding: chunked\r\n\r\n1\r\na\r\n0\r\nBad Trailer\r\n\r\n'),
+		('server', b'POST / HTTP/1.1\r\nHost: h\r\nContent-Length: -5\r\n\r\nhello'),
+		('server', b'POST / HTTP/1.1\r\nHost: h\r\nContent-Encoding: gzip\r\nContent-Length: %d\r\n\r\n' % len(gz) + gz[:12] + b'XX' + gz[14:] + b'GET / HTTP/1.1\r\nHost: h\r\n\r\n'),
+		('client', b'HTTP/1.1 200 OK\r\nContent-Encoding: deflate\r\nContent-Length: 5\r\n\r\nhelloHTTP/1.1 204 No Content\r\n\r\n'),
+		('client', b'HTTP/1.1 200 OK\r\nContent-Encoding: gzip\r\nTransfer-Encoding: chunked\r\n\r\n%x\r\n' % len(gz) + gz + b'\r\n0\r\n\r\nHTTP/1.1 204 No Content\r\n\r\n'),
+		('client', b'HTTP/1.1 200 OK\r\nTransfer-Encoding: chunked\r\nTrailer: X\r\n\r\n1\r\na\r\n0\r\nY: untold\r\n\r\n'),
+	]
+	for kind, s in directed:
+		cases.append({'k': 'frag', 'kind': kind, 's': s.hex(), 'cuts': [[], list(range(1, len(s)))] + streams.single_cuts(s, None if tier == 'thorough' else 100)})
 	if tier == 'thorough':
 		# all 2^(n-1) fragmentations of short streams over a message-skeleton alphabet
 		skel = [b'GET / HTTP/1.1\r\n', b'Host:x\r\n', b'\r\n', b'A:b\r\n', b'Content-Length:2\r\n', b'ab', b'Transfer-Encoding:chunked\r\n', b'1\r\nz\r\n', b'0\r\n\r\n', b'HTTP/1.1 200 OK\r\n', b'\r', b'\n', b' c\r\n']
@@ -95,6 +110,15 @@ def gen_cases(rng, tier):
 					for head, kind in ((b'POST / HTTP/1.1\r\nHost:x\r\nTransfer-Encoding:chunked', 'server'), (b'HTTP/1.1 200 OK\r\nContent-Length:2', 'client')):
 						full = head + s
 						cases.append({'k': 'frag', 'kind': kind, 's': full.hex(), 'cuts': [[len(head)] + [len(head) + c for c in cs] for cs in allcuts]})
+	return cases
+
+
+def gen_cases(rng, tier):
+	cases = _gen_cases(rng, tier)
+	# one in five client-side cases is read by a client machine whose request is a CONNECT (its successful responses lose their framing fields)
+	for c in cases:
+		if c.get('kind') == 'client' and rng.random() < .2:
+			c['kind'] = 'client-connect'
 	return cases
 
 
